@@ -69,8 +69,14 @@ PlanOf(p) ==
     [] p = "C07" -> { Cell("generator", key, "-", "-", "-", "-", "-", "-", 0) : key \in Range(GroupsQ) }
                     \cup { Cell("algebra", key, k, "-", "-", "-", "-", "-", 0) : key \in Range(GroupsQ), k \in {"int", "real"} }
 
+\* Jacobian-grade properties are stated for double; single precision is exercised on the same
+\* cells except the 1e6 linear magnitude (the coupling blocks of SGal3 involve products of two
+\* linear coordinates, 1e12, which single precision cannot carry to 1e-3)
+IsFloatKey(k) == \E i \in 1..Len(GroupsF) : GroupsF[i] = k
+FloatOK(c) == (Prop \in {"C05", "C06"} /\ IsFloatKey(c.key)) => (c.linc # "1e6" /\ c.linc2 # "1e6")
+
 VARIABLE cell
-Init == cell \in PlanOf(Prop)
+Init == cell \in { c \in PlanOf(Prop) : FloatOK(c) }
 Next == UNCHANGED cell
 Emit == PrintT(ToJson(cell))
 =============================================================================
